@@ -53,5 +53,11 @@ TEXTS = {
         level_text="Generated-history search over the public gRPC API of the real core: ~100 (quick) to ~3700 (thorough) histories with illegal requests, failing transitions, destroy requests and 2-3 concurrent callers whose overlap is forced by the harness. The oracle is independent of the implementation's tables (documented graph, bracket non-overlap, no effects of illegal requests, ERROR after failures, DONE terminal). Exploration level: histories and interleavings are sampled.",
         level_note="Trusts the forwarded event stream as the core's own account of its transitions (hook H3 only installs a writer; events are written synchronously by the code under test); Go-level schedules inside the core are not enumerated.",
     ),
+    "C03": dict(
+        engine="simworld",
+        technique="property-based fault injection (rapid): generated workflow, live state, victim, failure kind and injection instant (including racing with a transition parked by a gated executor reply) against the whole real core; oracle = criticality model over the set of affected tasks, observed through GetEnvironment polling and forwarded run events",
+        level_text="Fault enumeration: the complete kind x state x criticality matrix as fixed cases on every run plus generated shapes/instants (~100 quick, ~2000 thorough). The failing component is the real status/failure/device-event path of the task manager, the role tree and the environment watcher. Timing bounds are generous (15 s for a 0.5 s mechanism).",
+        level_note="Trusts the simulation's causality rule (a dead task sends nothing more); 'bounded time' = 15 s; two open findings (critical task TASK_FINISHED) are excluded by construction and reproduced by canaries.",
+    ),
 }
 NA_REASONS = {}
